@@ -38,7 +38,7 @@ def dim_classes(I, names):
 
 def jobs(tier, seed, report):
     report.bounds = {'magnitude': 'unbounded rational (SMT Real)', 'powers': '-3..3 without 0, symbolic', 'prefixes': 'all 21 SI prefix exponents, symbolic (forked over the feasible prefix*power values)',
-                     'shapes': 'the same 2-3-unit product on both sides with an independent symbolic prefix on every entry; every unit to/from its base-SI expansion; all ordered pairs inside each dimension class (1 entry each); products/quotients: 2 and 3 entries per side over the 14-unit basis (quick: seeded sample), thorough: 4 entries'}
+                     'shapes': 'the same 2-3-unit product on both sides with an independent symbolic prefix on every entry; every unit to/from its base-SI expansion; all ordered pairs inside each dimension class (1 entry each); products/quotients: 2 and 3 entries per side over the 14-unit basis (quick: seeded sample), thorough: 4 entries; products/quotients of two different units of one dimension to base SI (all pairs, both tiers)'}
     report.outside = ['more than 4 factors per side', 'offset scales (C09)', 'that the declared scales are the standard ones (C05)']
     report.assumptions = ['BigRational exact (SMT Real)', 'BTreeMap association-list model with the crate\'s own Ord']
     report.models_used = ['num', 'coll', 'core']
@@ -54,6 +54,7 @@ def jobs(tier, seed, report):
     pairs = []
     for d, ns in dim_classes(I, voc).items():
         pairs += [(a, b) for a in ns for b in ns if a != b]
+    pairs_all = list(pairs)
     rnd.shuffle(pairs)
     if tier == 'quick': pairs = pairs[:260]
     for i in range(0, len(pairs), 10): js.append({'name': f'pair-{i}', 'kind': 'pairs', 'pairs': pairs[i:i + 10]})
@@ -64,6 +65,10 @@ def jobs(tier, seed, report):
         k = rnd.choice([2, 2, 3] if tier == 'quick' else [2, 3, 3, 4])
         shapes.append(rnd.sample(B, k))
     for i in range(0, len(shapes), 4): js.append({'name': f'prod-{i}', 'kind': 'product', 'shapes': shapes[i:i + 4]})
+    # products of two DIFFERENT units of ONE dimension (day * week, foot^2 / inch): both must survive as separate factors
+    twins = sorted({tuple(sorted(p)) for p in pairs_all})
+    rnd.shuffle(twins)
+    for i in range(0, len(twins), 4): js.append({'name': f'twin-{i}', 'kind': 'product', 'shapes': [list(t) for t in twins[i:i + 4]]})
     # the same product on both sides with a different prefix on EVERY entry of source and target
     rep = []
     for _ in range(18 if tier == 'quick' else 100): rep.append(rnd.sample(B, 2 if tier == 'quick' else rnd.choice([2, 2, 2, 3])))
